@@ -345,6 +345,35 @@ fn parse_texts(seed: u64, scn: &Scenario, t: &mut Tally) {
             t.parsed += 1;
         }
     }
+    // malformed input: every parser must reject (or accept) it without undefined behaviour —
+    // hand-picked fragments, and generated texts cut off at a random character
+    for text in ["$X = $Y +", "A -", "B *", "7 /", "f(a, b", "[a, b", "[a | ", "\"unterminated", "f(a))", "", " ", "$", ":-", "a :- ", "a :- b,", "1.5.", "=", "f(", "f()", "not(", "a :- b ; ", "$X ==", "<", "[|]", "f(,)", "é", "f(é, 日本"] {
+        if rng.chance(1, 3) {
+            let _ = std::panic::catch_unwind(|| parse_term(text).is_ok());
+            let _ = std::panic::catch_unwind(|| parse_subgoal(text).is_ok());
+            let _ = std::panic::catch_unwind(|| parse_rule(text).is_ok());
+            let _ = std::panic::catch_unwind(|| parse_query(text).is_ok());
+            t.parsed += 1;
+            t.malformed += 1;
+        }
+    }
+    for r in prog.rules.iter().take(4) {
+        let chars: Vec<char> = r.chars().collect();
+        if chars.is_empty() {
+            continue;
+        }
+        let cut = rng.usize_below(chars.len());
+        let piece: String = chars[..cut].iter().collect();
+        let _ = std::panic::catch_unwind(|| parse_rule(&piece).is_ok());
+        let _ = std::panic::catch_unwind(|| parse_subgoal(&piece).is_ok());
+        let _ = std::panic::catch_unwind(|| parse_term(&piece).is_ok());
+        // and the tail of the rule from there
+        let rest: String = chars[cut..].iter().collect();
+        let _ = std::panic::catch_unwind(|| parse_term(&rest).is_ok());
+        let _ = std::panic::catch_unwind(|| parse_subgoal(&rest).is_ok());
+        t.parsed += 1;
+        t.malformed += 1;
+    }
     // the scenario's own clauses and queries, as text
     for c in scn.clauses.iter().take(5) {
         let text = c.to_string();
@@ -434,6 +463,7 @@ struct Tally {
     cut_rules: u64,
     kb_mutations: u64,
     parsed: u64,
+    malformed: u64,
     inspected: u64,
 }
 
@@ -606,7 +636,7 @@ fn main() {
     // Miri reports threads that are alive when main returns
     std::thread::sleep(Duration::from_millis(1100));
     eprintln!(
-        "TALLY part={} first={} count={} ops={} answers={} timer_during={} timer_after={} timer_cancelled={} solve_calls={} solve_timeouts={} reasks={} cut_rules={} kb_mutations={} parsed={} inspected={}",
-        part, first, count, t.ops, t.answers, t.timer_fired_during_search, t.timer_fired_after, t.timer_cancelled, t.solve_calls, t.solve_timeouts, t.reasks_after_none, t.cut_rules, t.kb_mutations, t.parsed, t.inspected
+        "TALLY part={} first={} count={} ops={} answers={} timer_during={} timer_after={} timer_cancelled={} solve_calls={} solve_timeouts={} reasks={} cut_rules={} kb_mutations={} parsed={} malformed={} inspected={}",
+        part, first, count, t.ops, t.answers, t.timer_fired_during_search, t.timer_fired_after, t.timer_cancelled, t.solve_calls, t.solve_timeouts, t.reasks_after_none, t.cut_rules, t.kb_mutations, t.parsed, t.malformed, t.inspected
     );
 }
